@@ -102,6 +102,7 @@ type ContractFile struct {
 	Specs     []*SpecFunc
 	Lemmas    []*Lemma
 	Decoded   []*Decoded
+	GlobalInvs []Clause // facts about package-level variables established by package initialisation and never changed
 }
 
 func parseClause(s, file string, line int) (Clause, error) {
@@ -223,6 +224,14 @@ func parseContractFile(path string) (*ContractFile, error) {
 				sf.Body = b
 			}
 			cf.Specs = append(cf.Specs, sf)
+			cur = nil
+			continue
+		case "global-invariant":
+			c, err := parseClause(rest, path, ln)
+			if err != nil {
+				return nil, err
+			}
+			cf.GlobalInvs = append(cf.GlobalInvs, c)
 			cur = nil
 			continue
 		case "decoded":
